@@ -25,7 +25,7 @@ func runC06(p *core.Prog, r *core.Report) {
 	c := &c06ctx{ctx: &ctx{p, r}}
 	r.Explain = "No input from the network can crash a party — decided as the discharge of every reachable panic site of seven repository-specific classes, with a module-wide origin analysis (WIRE = fields and methods of protobuf content types and parameters/receiver fields of the exported verifier and decoder API; RAND, HASH, KEY, CONST) computed by a backward walk over go/ssa with flow-insensitive summaries of struct fields: (R06.0) every store into a message array is dominated by the ok edge of ValidateMessage and by the sender-index bound of that array's own length class; (R06.1) scalars of ScalarMult/ScalarBaseMult (which panic when the product is the identity) with WIRE influence are guarded non-zero modulo the group order; (R06.2) results of ModInverse / negative-exponent Exp on WIRE operands are nil-checked before any use; (R06.3) big.Jacobi's second argument is guarded odd and positive before the call, WIRE moduli of Mod/Div/Exp are guarded non-zero; (R06.4) constant-index and slice accesses on lists whose length is chosen by the sender are dominated by a length fact (direct test, NonEmptyMultiBytes, or the ValidateBasic of the stored message); (R06.5) results of (pointer, error) calls are not used before the error is examined, and errors are not discarded when operands are WIRE; (R06.6) unchecked type assertions on stored messages name the type StoreMessage files in that array; (R06.7) explicit panic sites form a frozen, reasoned table."
 	r.Undec = "panics inside btcec, dcrd, protobuf and the Go runtime for well-typed arguments; nil dereferences outside the listed classes; termination other than zero-modulus powers; use of a party after it returned an error."
-	r.Assume = []string{"hash outputs hit a fixed residue (0 mod q) with negligible probability", "values sampled locally and never revealed are not attacker-predictable", "key data handed to signing/resharing was produced by this library's keygen", "integers decoded by this library are non-negative (SetBytes)"}
+	r.Assume = []string{"hash outputs hit a fixed residue (0 mod q) with negligible probability", "values sampled locally and never revealed are not attacker-predictable", "key data handed to signing/resharing was produced by this library's keygen", "integers decoded by this library are non-negative (SetBytes)", "the declared size of the new committee (NewPartyCount) equals the number of IDs in its peer context; thresholds and party counts are the application's configuration and non-negative", "the byte length of one integer's encoding is outside R06.4 (which covers lists of protocol elements)"}
 	c.setup()
 	c06Stored(c)
 	c06Identity(c)
@@ -35,6 +35,9 @@ func runC06(p *core.Prog, r *core.Report) {
 	c06UseBeforeErr(c)
 	c06Asserts(c)
 	c06Panics(c)
+	// "no hang": goroutines started under an update entry point are joined and their result channels
+	// have room for every send (shared with C09; a blocked sender leaves Update hanging with the mutex held)
+	c09ForkJoin(c.ctx)
 }
 
 func (c *c06ctx) setup() {
@@ -246,13 +249,22 @@ func c06Stored(c *c06ctx) {
 func lenClass(v ssa.Value) string { return classOfDescr(descr(v)) }
 
 func classOfDescr(d string) string {
+	// The number of old-committee members taking part (len(OldParties().IDs())) and the declared size of
+	// the original committee (OldPartyCount()) legitimately differ when a subset reshares, and so do the
+	// declared party count and the number of peers in a signing subset: they are different classes.
+	// The new committee takes part in full: its declared size and its ID list are one class (a
+	// configuration invariant of NewReSharingParameters, assumed, listed in the evidence).
 	switch {
-	case strings.Contains(d, "OldParties") || strings.Contains(d, "oldPartyCount") || strings.Contains(d, "OldPartyCount"):
-		return "old-committee-size"
-	case strings.Contains(d, "NewParties") || strings.Contains(d, "NewPartyCount") || strings.Contains(d, "newPartyCount"):
-		return "new-committee-size"
-	case strings.Contains(d, "PartyCount") || strings.Contains(d, "partyCount") || strings.Contains(d, "Parties().IDs()"):
-		return "party-count"
+	case strings.Contains(d, "OldParties().IDs()"):
+		return "len(old committee IDs)"
+	case strings.Contains(d, "OldPartyCount()"):
+		return "declared old party count"
+	case strings.Contains(d, "NewParties().IDs()") || strings.Contains(d, "NewPartyCount()"):
+		return "new committee size"
+	case strings.Contains(d, "Parties().IDs()"):
+		return "len(party IDs)"
+	case strings.Contains(d, "PartyCount()"):
+		return "declared party count"
 	}
 	return d
 }
